@@ -140,7 +140,13 @@ Definition ref_op (s : astate) (o : term) : astate * option str :=
     end
   else if op_is o "aunset" then
     match i with
-    | None => (match look s n with Some (AArray _) => erase s n | _ => s end, Some [])
+    | None =>
+        (* through a link only the global array goes: the link stays, so that later array
+           operations and writes still act on the global (scope.rs unset_at, array_only) *)
+        (match look s n with
+         | Some (AArray _) => if linked s n then {| g := f_del (g s) n; locals := locals s |} else erase s n
+         | _ => s
+         end, Some [])
     | Some k => (match look s n with
                  | Some (AArray m) => store s n (AArray (filter (fun kv => negb (str_eqb (fst kv) k)) m))
                  | _ => s
